@@ -451,6 +451,11 @@ class SccContext:
       elif word.endswith(" "):
         self.active_caption.append_text(word)
 
+        # the text that received the word carries the current attributes (a new, empty text is opened just below)
+        self.active_caption.get_current_text().add_style_property(StyleProperties.Color, self.current_color)
+        self.active_caption.get_current_text().add_style_property(StyleProperties.FontStyle, self.current_font_style)
+        self.active_caption.get_current_text().add_style_property(StyleProperties.TextDecoration, self.current_text_decoration)
+
         if self.active_caption.get_caption_style() is not SccCaptionStyle.PaintOn:
           self.paint_on_active_caption(time_code)
         else:
